@@ -60,6 +60,35 @@ func getsnapCase(seed uint64, idx int) *CaseSpec {
 			return fail("getsnap: the entries could not be programmed")
 		}
 		aftT := []spb.AFTType{spb.AFTType_NEXTHOP, spb.AFTType_ALL}[r.IntN(2)]
+		if idx%12 == 4 {
+			// a slow reader: it takes one response, pauses for a few seconds, then reads on; nothing
+			// else happens meanwhile. It must still get every entry (a Get may be slow, not short)
+			stalled, resume := h.GetPaused(&spb.GetRequest{NetworkInstance: &spb.GetRequest_Name{Name: ni}, Aft: aftT}, after)
+			pause := 2500 * time.Millisecond
+			if stalled {
+				time.Sleep(pause)
+			}
+			resps, gerr, ghang := resume()
+			got := 0
+			for _, rsp := range resps {
+				for _, e := range rsp.GetEntry() {
+					if nh := e.GetNextHop(); nh != nil && nh.GetIndex() >= 1000 {
+						got++
+					}
+				}
+			}
+			switch {
+			case ghang:
+				return fail("getsnap: a Get whose reader paused was not answered (hang)")
+			case gerr != nil:
+				return fail(fmt.Sprintf("getsnap: a Get whose reader paused for %v ended with an error: %v", pause, gerr))
+			case got != nNH:
+				return fail(fmt.Sprintf("getsnap: a Get of %s whose reader paused for %v ended OK with %d of the %d installed next-hops: not a state the table ever had", ni, pause, got, nNH))
+			}
+			t.Add("conc.result 1 %s 0", S("ok"))
+			t.Add("end")
+			return t, nil
+		}
 		stalled, resume := h.GetPaused(&spb.GetRequest{NetworkInstance: &spb.GetRequest_Name{Name: ni}, Aft: aftT}, after)
 		delDone := make(chan MsgOutcome, 1)
 		go func() { delDone <- h.Send(1, &spb.ModifyRequest{Operation: dels}) }()
